@@ -45,7 +45,10 @@ type C21Case struct {
 	CaseInsensitive bool          `json:"case_insensitive"`
 	Perm            []int         `json:"perm"`
 	Extras          []C21Extra    `json:"extras"`
-	Recase          []int         `json:"recase"` // per kept entry: 0 none, 1 upper, 2 lower, 3 mixed, 4 add underscores, 5 drop underscores
+	// NearMiss (case-sensitive matching only): for each entry, the index of an existing key whose upper-cased
+	// spelling is added as one more key at the end of the document; it names no field and must be skipped
+	NearMiss []int `json:"near_miss,omitempty"`
+	Recase   []int `json:"recase"` // per kept entry: 0 none, 1 upper, 2 lower, 3 mixed, 4 add underscores, 5 drop underscores
 }
 
 var c21Names = []string{"Name", "FirstName", "ID", "UserID", "HTTPServer", "Count", "Value", "Data", "Flag", "Items", "Inner", "A", "B",
@@ -316,6 +319,11 @@ func init() {
 				}
 				c.Extras = append(c.Extras, x)
 			}
+			if !c.CaseInsensitive {
+				for i, k := 0, rapid.IntRange(0, 2).Draw(t, "nnearmiss"); i < k; i++ {
+					c.NearMiss = append(c.NearMiss, rapid.IntRange(0, 40).Draw(t, "nearmiss"))
+				}
+			}
 			return c
 		},
 		Check: func(ci interface{}, ctx *Ctx) error {
@@ -430,6 +438,52 @@ func init() {
 			}
 			for _, x := range extraAt[len(entries)] {
 				emitExtra(x)
+			}
+			// near-miss keys (case-sensitive matching): an existing key in upper case is a different key; it
+			// comes after the real one, so a builder that wrongly matches it overwrites the field (or fails on
+			// the value's type)
+			if !c.CaseInsensitive && len(entries) > 0 {
+				known := map[string]bool{}
+				var names func(s *gen.TypeSpec)
+				names = func(s *gen.TypeSpec) {
+					if s == nil {
+						return
+					}
+					for _, f := range s.Fields {
+						known[f.Name] = true
+						known[strings.ToLower(strings.ReplaceAll(f.Name, "_", ""))] = true
+						if t := parseTag(f); t.name != "" {
+							known[t.name] = true
+							known[strings.ToLower(strings.ReplaceAll(t.name, "_", ""))] = true
+						}
+						if f.Embedded {
+							names(f.Type)
+						}
+					}
+				}
+				names(c.Type)
+				used := map[string]bool{}
+				for _, e := range entries {
+					k := e.key.S
+					if e.key.K == ev.Array {
+						k = string(e.key.Bs)
+					}
+					known[k] = true
+				}
+				for _, nm := range c.NearMiss {
+					e := entries[nm%len(entries)]
+					k := e.key.S
+					if e.key.K == ev.Array {
+						k = string(e.key.Bs)
+					}
+					up := strings.ToUpper(k)
+					if known[up] || used[up] {
+						continue
+					}
+					used[up] = true
+					ctx.Label("near-miss key in case-sensitive mode")
+					doc = append(doc, ev.Event{K: ev.StringArray, AT: events.ArrayTypeString, S: up}, ev.Event{K: ev.Int, I: 77})
+				}
 			}
 			doc = append(doc, ev.Event{K: ev.End}, ev.Event{K: ev.ED})
 			var bytesDoc []byte
